@@ -518,3 +518,55 @@ twin('c12-startpoint-none', 'C12', 'iOpt/solver_parametrs.py', 'SolverParameters
 twin('c12-parameters-none', 'C12', SV, 'Solver.__init__', 'parameters: SolverParameters = SolverParameters()',
      'parameters: SolverParameters = None', also=[(SV, 'Solver.__init__', '        self.problem = problem\n',
                                                   '        if parameters is None:\n            parameters = SolverParameters()\n        self.problem = problem\n')])
+
+# ----------------------------------------------------------------------------- C15
+PR = 'iOpt/problems/'
+GF = PR + 'grishagin_function/grishagin_function.py'
+GK = PR + 'GKLS_function/gkls_function.py'
+GR = PR + 'GKLS_function/gkls_random.py'
+fire('c15-memo-self', 'C15', PR + 'rastrigin.py', 'Rastrigin.Calculate', '        functionValue.value = sum\n',
+     '        self.lastValue = sum\n        functionValue.value = sum\n', 'R15.1')
+fire('c15-memo-dict', 'C15', PR + 'hill.py', 'Hill.Calculate', '        res: np.double = 0\n',
+     '        res: np.double = 0\n        self.knownOptimum[0].point.floatVariables[0] = point.floatVariables[0]\n',
+     'R15.1')
+fire('c15-counter', 'C15', PR + 'xsquared.py', 'XSquared.Calculate', '        functionValue.value = sum\n',
+     '        self.numberOfDisreteVariables += 1\n        functionValue.value = sum\n', 'R15.1')
+fire('c15-point-normalised', 'C15', PR + 'rastrigin.py', 'Rastrigin.Calculate', '        sum: np.double = 0\n',
+     '        sum: np.double = 0\n        point.floatVariables[0] = float(point.floatVariables[0])\n', 'R15.2')
+fire('c15-point-via-callee', 'C15', GF, 'GrishaginFunction.Calculate', '        d1 = math.pi * x[0]\n',
+     '        x[0] = min(max(x[0], 0.0), 1.0)\n        d1 = math.pi * x[0]\n', 'R15.1')
+fire('c15-gkls-scratch-self', 'C15', GK, 'GKLSFunction.GKLS_norm', '        norm = np.double(0)\n',
+     '        norm = np.double(0)\n        self.delta = norm\n', 'R15.1')
+fire('c15-grishagin-scratch-self', 'C15', GF, 'GrishaginFunction.Calculate',
+     '        snx = np.ndarray(shape=(7,), dtype=np.double)\n', '        snx = self.af[0]\n', 'R15.1')
+fire('c15-fresh-holder', 'C15', PR + 'shekel.py', 'Shekel.Calculate', '        functionValue.value = res\n        return functionValue',
+     '        out = FunctionValue()\n        out.value = res\n        return out', 'R15.3')
+fire('c15-no-store-branch', 'C15', PR + 'stronginC3.py', 'StronginC3.Calculate',
+     '        functionValue.value = res\n        return functionValue',
+     '        if res < 0:\n            functionValue.value = res\n        return functionValue', 'R15.3')
+fire('c15-returns-none', 'C15', PR + 'xsquared.py', 'XSquared.Calculate', '        return functionValue', '        return None',
+     'R15.3')
+fire('c15-matcon-alias', 'C15', GF, 'GrishaginFunction.SetFunctionNumber',
+     '        for j in range(len(grishaginGen.matcon[i1])):\n            self.icnf[j] = int(grishaginGen.matcon[i1][j])\n',
+     '        self.icnf = grishaginGen.matcon[i1]\n', None)
+fire('c15-class-level-buffers', 'C15', GR, 'GKLSRandomGenerator.__init__',
+     '        self.rnd_num = np.zeros(GKLSRandomGenerator.KK, dtype=np.double)  # array of random numbers */\n',
+     '        self.rnd_num = GKLSRandomGenerator.SHARED\n', None,
+     also=[(GR, 'GKLSRandomGenerator', '    NUM_RND = 1009  # size of the array of random numbers */',
+            '    NUM_RND = 1009  # size of the array of random numbers */\n    SHARED = np.zeros(100, dtype=np.double)'),
+           (GR, 'GKLSRandomGenerator.Initialize', '        self.rnd_num = rnd_num_mem\n', '')])
+fire('c15-module-table-write', 'C15', PR + 'hill.py', 'Hill.__init__', '        self.fn = function_number\n',
+     '        self.fn = function_number\n        hillGen.minHill[self.fn][0] = hillGen.minHill[self.fn][0] + 0.0\n', 'R15.4')
+fire('c15-random', 'C15', PR + 'rastrigin.py', 'Rastrigin.Calculate', '        functionValue.value = sum\n',
+     '        functionValue.value = sum + 0.0 * np.random.rand()\n', 'R15.6')
+fire('c15-time', 'C15', PR + 'shekel4.py', 'Shekel4.Calculate', '        functionValue.value = res\n',
+     '        import time\n        functionValue.value = res + 0 * time.time()\n', 'R15.6')
+fire('c15-ctor-shared-holder', 'C15', PR + 'shekel4.py', 'Shekel4.__init__', '        KOfunV[0] = FunctionValue()\n',
+     '        KOfunV[0] = shekelGen.c\n', None)
+twin('c15-local-scratch', 'C15', PR + 'rastrigin.py', 'Rastrigin.Calculate', '        sum: np.double = 0\n',
+     '        sum: np.double = 0\n        terms = []\n        terms.append(sum)\n')
+twin('c15-copy-then-write', 'C15', PR + 'rastrigin.py', 'Rastrigin.Calculate', '        sum: np.double = 0\n',
+     '        sum: np.double = 0\n        y = np.copy(point.floatVariables)\n        y[0] = y[0] + 0.0\n')
+twin('c15-helper', 'C15', PR + 'xsquared.py', 'XSquared.Calculate',
+     '        for i in range(self.dimension):\n            sum += point.floatVariables[i] * point.floatVariables[i]\n',
+     '        sum = float(np.dot(point.floatVariables, point.floatVariables))\n')
